@@ -244,7 +244,13 @@ mod net {
             "(raw ipv4)".into()
         }
         fn gen(g: &mut Gen, _d: u32) -> Self {
-            Ipv4Addr::from(g.next() as u32)
+            match g.below(8) {
+                0 => Ipv4Addr::new(0, 0, 0, 0),
+                1 => Ipv4Addr::new(127, 0, 0, 1),
+                2 => Ipv4Addr::new(255, 255, 255, 255),
+                3 => Ipv4Addr::new(192, 168, 0, 1),
+                _ => Ipv4Addr::from(g.next() as u32),
+            }
         }
         fn val(&self, o: &mut String) {
             o.push_str(&hex(&self.octets()));
@@ -255,7 +261,20 @@ mod net {
             "(raw ipv6)".into()
         }
         fn gen(g: &mut Gen, _d: u32) -> Self {
-            Ipv6Addr::from(g.u128())
+            // the address classes std treats specially: unspecified, loopback, IPv4-mapped,
+            // IPv4-compatible, multicast, documentation, all ones
+            let v4 = g.next() as u32 as u128;
+            match g.below(12) {
+                0 => Ipv6Addr::from(0u128),
+                1 => Ipv6Addr::from(1u128),
+                2 | 3 => Ipv6Addr::from((0xffffu128 << 32) | v4),
+                4 => Ipv6Addr::from(v4),
+                5 => Ipv6Addr::from((0xff02u128 << 112) | 1),
+                6 => Ipv6Addr::from((0x2001_0db8u128 << 96) | v4),
+                7 => Ipv6Addr::from(u128::MAX),
+                8 => Ipv6Addr::from((0x64_ff9bu128 << 96) | v4),
+                _ => Ipv6Addr::from(g.u128()),
+            }
         }
         fn val(&self, o: &mut String) {
             o.push_str(&hex(&self.octets()));
